@@ -11,6 +11,7 @@ def emit(w, src, must):
     emit_timers(w, src, must)
     emit_guards(w, src, must)
     emit_stun(w, src, must)
+    emit_sdp(w, src, must)
 
 
 def emit_timers(w, src, must):
@@ -88,4 +89,32 @@ def emit_stun(w, src, must):
     w("Definition stun_initial_ms : N := %s." % d.group(1))
     pr = src("crates/stun-types/src/parse.rs")
     w("Definition stun_trim_only_variable : bool := %s." % ("true" if "trimmed_end" in pr and re.search(r"end: value_end,", pr) else "false"))
+    w("")
+
+
+def emit_sdp(w, src, must):
+    """token tables of sdp-types and the form of the matchers the model of C19 depends on"""
+    media = src("crates/sdp-types/src/media.rs")
+    mt = re.findall(r'"(\w+)" => Ok\(MediaType::(\w+)\)', media)
+    pr = re.findall(r'"([\w/]+)" => TransportProtocol::(\w+),', media)
+    w("(* crates/sdp-types: media types, transport protocols, SRTP suites, direction keywords -- as the parsers match them *)")
+    w("Definition sdp_media_types : list (list byte) := [%s]." % "; ".join(blist(a.encode()) for a, _ in mt))
+    w("Definition sdp_protocols : list (list byte) := [%s]." % "; ".join(blist(a.encode()) for a, _ in pr))
+    whole = bool(mt) and bool(pr) and 'tag("audio")' not in media and 'tag("RTP/SAVP")' not in media
+    crypto = src("crates/sdp-types/src/attributes/crypto.rs")
+    m = must(re.search(r"suite! \{([^}]*)\}", crypto), "SRTP suite list")
+    suites = [x.strip() for x in m.group(1).split(",") if x.strip()]
+    w("Definition sdp_suites : list (list byte) := [%s]." % "; ".join(blist(a.encode()) for a in suites))
+    whole = whole and "map(tag(stringify!($suite))" not in crypto and 'tag("UNENCRYPTED_SRTP")' not in crypto
+    w("Definition sdp_tokens_matched_whole : bool := %s." % ("true" if whole else "false"))
+    w("Definition sdp_lifetime_checked_pow : bool := %s." % ("true" if "2u32.checked_pow(n)" in crypto and "2u32.pow(n)" not in crypto else "false"))
+    d = src("crates/sdp-types/src/attributes/direction.rs")
+    dn = re.findall(r'Direction::(\w+) => "(\w+)"', d)
+    w("Definition sdp_directions : list (list byte) := [%s]." % "; ".join(blist(b.encode()) for _, b in dn))
+    sd = src("crates/sdp-types/src/session_description.rs")
+    disp = sd[sd.index("impl fmt::Display for MediaDescription"):sd.index("/// The Session Description message")]
+    w("Definition sdp_prints_candidates : bool := %s." % ("true" if "self.ice_candidates" in disp and "a=end-of-candidates" in disp else "false"))
+    sdisp = sd[sd.index("impl fmt::Display for SessionDescription"):sd.index("#[derive(Default)]\nstruct Parser")]
+    w("Definition sdp_prints_session_direction : bool := %s." % ("true" if "self.direction" in sdisp else "false"))
+    w("Definition sdp_ice_lite_flag : bool := %s." % ("true" if re.search(r'"ice-lite" => self\.ice_lite = true,\s*\n\s*"end-of-candidates"', sd) else "false"))
     w("")
